@@ -7,6 +7,8 @@ from __future__ import annotations
 
 import math
 
+import random
+
 import numpy as np
 
 from harness.lib import core
@@ -215,6 +217,50 @@ def run_case(ctx, res, case, lines, post):
                                      'input': {**case, 'index': [list(a), list(b)], 'output': o},
                                      'observed': np.asarray(yt[o]).tolist(), 'expected': exp.tolist()})
         res.hit('terms-checked')
+    # a single-fidelity surrogate passes through every training point it uses (nested grids + combination weights)
+    if na == 0:
+        for mode in ('train', 'test'):
+            iset = set(comp.active_set) if mode == 'train' else set(comp.active_set) | set(comp.candidate_set)
+            for (a, b) in sorted(iset):
+                xt, yt = comp.training_data.get(a, b[:nd], y_vars=out_names, skip_nan=True)
+                pr = comp.predict({k: np.asarray(v) for k, v in xt.items()}, index_set=mode)
+                for o, ov in zip(out_names, out_vars):
+                    exp = np.asarray(yt[o])        # Component.predict returns the outputs in normalised form, like the store
+                    if not np.allclose(np.asarray(pr[o]), exp, rtol=1e-8, atol=1e-9 * max(1.0, float(np.max(np.abs(exp))))):
+                        res.failures.append({'kind': 'single-fidelity-surrogate-misses-a-training-point',
+                                             'input': {**case, 'mode': mode, 'index': [list(a), list(b)], 'output': o,
+                                                       'history': [list(x) + list(y) for x, y in hist]},
+                                             'observed': np.asarray(pr[o]).tolist(), 'expected': exp.tolist()})
+            res.hit('passes-through-training-points-' + mode)
+    # the surrogate is linear in the model's outputs: surrogate(2 f - 3 g) = 2 surrogate(f) - 3 surrogate(g) for the same
+    # activation history (outputs without normalisation, so that the statement is about the surrogate itself)
+    if case['fseed'] % 3 == 0 and all(nm is None for nm in case['norms_out']):
+        g = make_f(random.Random(case['fseed'] + 11), case['nin'], case['nout'], 'rational')
+
+        def h(alpha, x):
+            yf, yg = f(alpha, x), g(alpha, x)
+            return {o: 2.0 * yf[o] - 3.0 * yg[o] for o in yf}
+        twins = []
+        for fn in (g, h):
+            c2, _ = cc.build_component(fn, case['nin'], out_names, case['alpha_lim'], case['beta_lim'],
+                                       tuple(case.get('surr_lim') or ()), case['domains'], case['norms_in'], case['norms_out'],
+                                       case['kpl'], vectorized=True)
+            for a, b in hist:
+                c2.activate_index(a, b)
+            twins.append(c2)
+        X = {n: np.array([p[d] for p in pts]) for d, n in enumerate(names)}
+        for mode in ('train', 'test'):
+            yf, yg, yh = (c.predict(X, index_set=mode) for c in (comp, twins[0], twins[1]))
+            for o in out_names:
+                lhs, rhs = np.asarray(yh[o]), 2.0 * np.asarray(yf[o]) - 3.0 * np.asarray(yg[o])
+                sc = np.abs(np.asarray(yf[o])) + np.abs(np.asarray(yg[o])) + 1.0
+                ok = np.isfinite(lhs) & np.isfinite(rhs)
+                if not np.all(np.abs(lhs - rhs)[ok] <= 1e-8 * sc[ok] * 10):
+                    res.failures.append({'kind': 'surrogate-not-linear-in-the-model-outputs',
+                                         'input': {**case, 'mode': mode, 'output': o,
+                                                   'history': [list(x) + list(y) for x, y in hist]},
+                                         'observed': lhs.tolist(), 'expected': rhs.tolist()})
+        res.hit('linearity-in-model-outputs')
     res.case((str(case),), len(comp.active_set) >= 3,
              {'case': {k: case[k] for k in ('nin', 'alpha_lim', 'beta_lim', 'kpl', 'nout', 'kind', 'domains',
                                             'norms_in', 'norms_out')},
